@@ -11,6 +11,7 @@ _ARR = {n: np.arange(n) * 10 + 7 for n in range(4)}      # numpy arrays are buil
 
 _ELEM_ARRS = [np.array([8]), np.array([8, 4]), np.array([])]
 _ELEM_LISTS = [[0, 10], [0, 100], []]
+_ZERO_D = np.asarray(0.5)
 
 
 def _same_value(a, b):
@@ -24,7 +25,7 @@ def _same_value(a, b):
 
 def _mk(kind, n, vals):
     """(declared value, list of the single values it stands for).  kinds: 0 int scalar, 1 None, 2 str (one value,
-    whatever its length), 3 list, 4 tuple, 5 range, 6 numpy array, 7 list of numpy arrays, 8 list of lists"""
+    whatever its length), 3 list, 4 tuple, 5 range, 6 numpy array, 7 list of numpy arrays, 8 list of lists, 9 0-d numpy array"""
     if kind == 0:
         return vals[0], [vals[0]]
     if kind == 1:
@@ -40,6 +41,8 @@ def _mk(kind, n, vals):
         return tuple(lst), list(lst)
     if kind == 5:
         return range(n), list(range(n))
+    if kind == 9:               # a 0-dimensional numpy array (np.asarray(0.5)): not iterable, hence ONE value - the object itself
+        return _ZERO_D, [_ZERO_D]
     if kind == 8:               # a list whose single values are themselves (unhashable) lists, e.g. bounds = [[0, 10], [0, 100]]
         lst = [_ELEM_LISTS[i] for i in range(n)]
         return lst, list(lst)
@@ -53,7 +56,7 @@ def _mk(kind, n, vals):
 def product(k0: int, n0: int, k1: int, n1: int, k2: int, n2: int, v0: int, v1: int, v2: int, v3: int, v4: int,
             v5: int, v6: int, v7: int, v8: int) -> bool:
     """
-    pre: 0 <= k0 < 9 and 0 <= k1 < 9 and 0 <= k2 < 9
+    pre: 0 <= k0 < 10 and 0 <= k1 < 10 and 0 <= k2 < 10
     pre: 0 <= n0 <= hx.P['L'] and 0 <= n1 <= hx.P['L'] and 0 <= n2 <= hx.P['L']
     post: _
     """
@@ -224,10 +227,10 @@ def obligations(tier):
     enc = (ParameterList.__init__, ParameterList.add_parameter, ParameterList.remove_parameter, ParameterList.build)
     if tier == "quick":
         parts = [{"p": 0, "L": 0, "route": "ctor"}, {"p": 1, "L": 3, "route": "ctor"}, {"p": 2, "L": 2, "route": "incr"},
-                 {"p": 2, "L": 2, "route": "ctor"}] + [{"p": 3, "L": 1, "route": "incr", "k0": k} for k in range(9)]
+                 {"p": 2, "L": 2, "route": "ctor"}] + [{"p": 3, "L": 1, "route": "incr", "k0": k} for k in range(10)]
     else:
         parts = [{"p": p, "L": L, "route": r} for r in ("ctor", "incr") for p, L in ((0, 0), (1, 3), (2, 3))]
-        parts += [{"p": 3, "L": 2, "route": r, "k0": k} for r in ("ctor", "incr") for k in range(9)]
+        parts += [{"p": 3, "L": 2, "route": r, "k0": k} for r in ("ctor", "incr") for k in range(10)]
 
     def lab(pt):
         if pt["p"] == 0:
